@@ -1094,4 +1094,106 @@ Proof.
   change (ov_kern (col_shell s m) (col_shell s m)) with (ov_kern s s). apply kentry_col.
 Qed.
 
+
+(* ------------------------------------------------------------------ *)
+(* one-index assembly (base_one.py): a generalized shell gives the same rows, in the same
+   order, as its single-column shells listed one after the other (segment-major flattening) *)
+(* ------------------------------------------------------------------ *)
+Definition segments (s : shell F) : list (shell F) := map (col_shell s) (seq 0 (nseg s)).
+Definition segmented_basis (basis : list (shell F)) : list (shell F) := flat_map segments basis.
+
+Section OneIndex.
+Variable tabs : F -> F.
+
+Definition seg_rows (sph : bool) (T : list (list F)) (q : list F * list (list F)) : list (list F) :=
+  let r := map (fun '(x, row) => map (fmul K x) row) (combine (fst q) (snd q)) in
+  if sph then apply_rows (map (fun _ => 0) (hd [] r))
+                (fun x y => map (fun '(a, c) => a + c) (combine x y))
+                (fun t x => map (fmul K t) x) (map (map tabs) T) r
+  else r.
+
+Lemma shell_rows_flat sph T nc blk :
+  shell_rows K tabs sph T nc blk = concat (map (seg_rows sph T) (combine nc blk)).
+Proof.
+  unfold shell_rows, normalise1, seg_rows. cbv zeta. destruct sph.
+  - rewrite map_map. f_equal. apply map_ext. intros [nrow b1]. reflexivity.
+  - f_equal. apply map_ext. intros [nrow b1]. reflexivity.
+Qed.
+
+Lemma combine_nth_seq {A B} (l1 : list A) (l2 : list B) n d1 d2 : length l1 = n -> length l2 = n ->
+  combine l1 l2 = map (fun i => (nth i l1 d1, nth i l2 d2)) (seq 0 n).
+Proof.
+  intros H1 H2. apply (nth_ext _ _ (d1, d2) (d1, d2)).
+  - rewrite combine_length, map_length, seq_length. lia.
+  - intros i Hi. rewrite combine_length in Hi. rewrite combine_nth by lia.
+    rewrite (nth_indep _ (d1, d2) ((fun i => (nth i l1 d1, nth i l2 d2)) 0%nat)) by (rewrite map_length, seq_length; lia).
+    rewrite (map_nth (fun i => (nth i l1 d1, nth i l2 d2))). rewrite seq_nth by lia. reflexivity.
+Qed.
+
+Variable blk_of : shell F -> list (list (list F)).
+Definition rows_of (s : shell F) : list (list F) :=
+  shell_rows K tabs (s_sph s) (shell_transform K s) (norm_cont K s) (blk_of s).
+
+Definition seg_compatible (s : shell F) : Prop :=
+  length (blk_of s) = nseg s /\ forall m, m < nseg s -> blk_of (col_shell s m) = [nth m (blk_of s) []].
+
+Lemma rows_of_segments s : seg_compatible s -> rows_of s = concat (map rows_of (segments s)).
+Proof.
+  intros [HL HS]. unfold rows_of at 1. rewrite shell_rows_flat.
+  rewrite (combine_nth_seq (norm_cont K s) (blk_of s) (nseg s) [] [])
+    by (rewrite ?norm_cont_form, ?mk_length; auto).
+  unfold segments. rewrite !map_map. f_equal. apply map_ext_in. intros m Hm. apply in_seq in Hm.
+  unfold rows_of. rewrite shell_rows_flat, (norm_cont_col_shell s m) by lia. rewrite (HS m) by lia.
+  change (s_sph (col_shell s m)) with (s_sph s). change (shell_transform K (col_shell s m)) with (shell_transform K s).
+  cbn [combine map concat]. now rewrite app_nil_r.
+Qed.
+
+Lemma rows_segmented_basis basis : Forall seg_compatible basis ->
+  concat (map rows_of (segmented_basis basis)) = concat (map rows_of basis).
+Proof.
+  induction 1 as [|s basis Hs _ IH]; [reflexivity|]. unfold segmented_basis in *. cbn [flat_map map concat].
+  rewrite map_app, concat_app, IH. f_equal. symmetry. now apply rows_of_segments.
+Qed.
+
+Lemma one_index_rows_of basis T :
+  one_index K tabs (map (fun s => (prep_fast K s, blk_of s)) basis) T
+  = let rows := concat (map rows_of basis) in
+    match T with
+    | None => rows
+    | Some t => apply_rows (map (fun _ => 0) (hd [] rows))
+                  (fun x y => map (fun '(a, c) => a + c) (combine x y))
+                  (fun t x => map (fmul K t) x) (map (map tabs) t) rows
+    end.
+Proof. unfold one_index. cbv zeta. rewrite map_map. reflexivity. Qed.
+
+Theorem one_index_segmented basis T : Forall seg_compatible basis ->
+  one_index K tabs (map (fun s => (prep_fast K s, blk_of s)) (segmented_basis basis)) T
+  = one_index K tabs (map (fun s => (prep_fast K s, blk_of s)) basis) T.
+Proof. intros H. rewrite !one_index_rows_of. cbv zeta. now rewrite (rows_segmented_basis basis H). Qed.
+End OneIndex.
+
+Lemma block_with_length md cm ef s o pts : length (block_with K md cm ef s o pts) = nseg s.
+Proof. unfold block_with. cbv zeta. apply mk_length. Qed.
+
+(* evaluate_basis / evaluate_deriv_basis: same functions, same order *)
+Theorem evaluate_basis_generalized_is_segmented basis pts T :
+  evaluate_basis_model K (segmented_basis basis) pts T = evaluate_basis_model K basis pts T.
+Proof.
+  unfold evaluate_basis_model. apply (one_index_segmented (fun x => x) (fun s => eval_block0 K s pts)).
+  apply Forall_forall. intros s _. split; [apply block_with_length|].
+  intros m Hm. unfold eval_block0. change (s_l (col_shell s m)) with (s_l s).
+  now apply eval_generalized_is_segmented.
+Qed.
+
+Theorem evaluate_deriv_basis_generalized_is_segmented basis pts o T bk :
+  evaluate_deriv_basis_model K (segmented_basis basis) pts o T bk = evaluate_deriv_basis_model K basis pts o T bk.
+Proof.
+  unfold evaluate_deriv_basis_model. destruct (accepts bk o); [|reflexivity]. f_equal.
+  apply (one_index_segmented (fun x => x)
+           (fun s => block_with K (mode_of K bk (s_l s) (comps_of s) o) (fun c => c) (fexp K) s o pts)).
+  apply Forall_forall. intros s _. split; [apply block_with_length|].
+  intros m Hm. change (s_l (col_shell s m)) with (s_l s). change (comps_of (col_shell s m)) with (comps_of s).
+  now apply eval_generalized_is_segmented.
+Qed.
+
 End P.
